@@ -266,6 +266,24 @@ func (g *lfGen) vec(depth int) string {
 			}
 			return fmt.Sprintf("(%s * on(%s) group_right(%s) %s)", other, m, incl, lost)
 		}
+		if g.rr.Intn(5) == 0 {
+			// functions of constants: the function's value is not its argument's (fix 5cb81d1), and absent() of something
+			// that always returns never returns (fix a8bfa1d)
+			switch g.rr.Intn(6) {
+			case 0:
+				return fmt.Sprintf("(abs(vector(-%d)) %s %d)", 1+g.rr.Intn(2), hx.Pick(g.rr, []string{">", ">=", "=="}), g.rr.Intn(2))
+			case 1:
+				return "(ceil(vector(0.5)) == 1)"
+			case 2:
+				return fmt.Sprintf("(clamp_min(vector(0), %d) > 1)", 2+g.rr.Intn(3))
+			case 3:
+				return fmt.Sprintf("(%s unless on() absent(vector(1)))", g.vec(depth-1))
+			case 4:
+				return fmt.Sprintf("(absent(vector(1)) or %s)", g.vec(depth-1))
+			default:
+				return fmt.Sprintf("(sgn(vector(%d)) < 2)", 3+g.rr.Intn(3))
+			}
+		}
 		switch g.rr.Intn(5) {
 		case 0:
 			b := ""
@@ -797,10 +815,17 @@ func c12SE(rr *rand.Rand, depth int, wantVec bool) seNode {
 		e := c12SE(rr, depth-1, false)
 		return seNode{text: "vector(" + e.text + ")", json: map[string]any{"k": "vector", "e": e.json}, isVec: true, closed: e.closed}
 	}
-	switch rr.Intn(5) {
+	switch rr.Intn(6) {
 	case 0:
 		e := c12SE(rr, depth-1, true)
 		return seNode{text: "-(" + e.text + ")", json: map[string]any{"k": "neg", "e": e.json}, isVec: true, closed: e.closed}
+	case 1:
+		// a function of a vector: one that keeps the values it is given, one that does not (fix 5cb81d1)
+		e := c12SE(rr, depth-1, true)
+		if rr.Intn(3) == 0 {
+			return seNode{text: "sort(" + e.text + ")", json: map[string]any{"k": "fn", "keeps": true, "e": e.json}, isVec: true, closed: e.closed}
+		}
+		return seNode{text: "abs(" + e.text + ")", json: map[string]any{"k": "fn", "keeps": false, "e": e.json}, isVec: true, closed: e.closed}
 	default:
 		lv, rv := true, true
 		switch rr.Intn(3) {
@@ -857,7 +882,13 @@ func c12Static(r *hx.Run) {
 	r.Op("lfeval\t"+string(b), got)
 	// the property on this fragment, observed: a static verdict means the query returns nothing (known: bool)
 	if s0.IsDead && len(ls) > 0 {
-		r.Violate(hx.Violation{Class: "dead-operand-contributes:static-comparison" + lfBool("static-comparison", e.text), Known: true, Input: cs,
+		class := "dead-operand-contributes:static-comparison" + lfBool("static-comparison", e.text)
+		if (strings.Contains(e.text, "abs(") || strings.Contains(e.text, "m1")) && !strings.Contains(class, "constant-through-vector-matching") {
+			// a known number next to an unknown one survives a vector-vector operation (recorded finding; the model's
+			// static_stale_through_join_not_sound): only these expressions have unknown numbers
+			class += ":constant-through-vector-matching"
+		}
+		r.Violate(hx.Violation{Class: class, Known: true, Input: cs,
 			Observed: map[string]any{"source": lfShowSrc(s0), "result": lfResultKey(ls, vals)}, Expected: "a query declared dead returns nothing"})
 	}
 }
